@@ -885,6 +885,15 @@ fn handle_code_action(
     params: CodeActionParams,
     documents: &DocumentStore,
 ) -> JsonRpcResponse<Vec<CodeActionResponse>> {
+    let mut params = params;
+    // A selection made backwards may arrive with its start after its
+    // end. The refactorings expect an ordered range.
+    if (params.range.start.line, params.range.start.character)
+        > (params.range.end.line, params.range.end.character)
+    {
+        std::mem::swap(&mut params.range.start, &mut params.range.end);
+    }
+
     let uri = &params.text_document.uri;
 
     // Convert file:// URI to path
